@@ -76,25 +76,29 @@ class WindowRoles:
             raise Broken('Window::push stores %s integer fields besides the size (expected exactly the cursor)' % sorted(stored))
         self.cursor = next(iter(stored))
         self.last = next(x for x in ints if x not in (self.size, self.cursor))
-        # index -> slot mapping
+        # index -> slot mapping: a non-public function (method of Window or free function of its module) taking (&Window<T>, PeriodType) and
+        # returning Option<PeriodType>
         cands = []
         for p, fn in f.fns.items():
-            if fn.get('parent_kind') == 'impl' and p.startswith(W + '::<T>::') and fn.get('vis') != 'pub' and fn.get('has_body'):
+            if fn.get('vis') != 'pub' and fn.get('has_body') and p.startswith('core::window'):
                 sig = fn.get('sig', '')
-                if '-> std::option::Option<%s>' % self.period_ty in sig and sig.count(',') == 1 and (', %s)' % self.period_ty) in sig:
-                    cands.append(fn['name'])
+                args_ = sig.split('fn(', 1)[-1].rsplit(') ->', 1)[0]
+                if ('-> std::option::Option<%s>' % self.period_ty) in sig and args_.count(',') == 1 and args_.endswith(', %s' % self.period_ty) \
+                        and 'core::window::Window<T>' in args_.split(',')[0]:
+                    cands.append(p)
         if len(cands) > 1:
             # a wrapper that only reaches another candidate is not the mapping itself: keep the candidates that call no other candidate
-            def calls_other(nm):
-                gb = f.generic_body(W + '::<T>::' + nm)
-                return gb is not None and any((t['callee'].get('def') or '') in {W + '::<T>::' + o for o in cands if o != nm} for _, t in Body(gb).calls())
-            leaves = [nm for nm in cands if not calls_other(nm)]
+            def calls_other(p_):
+                gb = f.generic_body(p_)
+                return gb is not None and any((t['callee'].get('def') or '') in {o for o in cands if o != p_} for _, t in Body(gb).calls())
+            leaves = [p_ for p_ in cands if not calls_other(p_)]
             if len(leaves) == 1:
                 cands = leaves
         if len(cands) != 1:
             raise Broken('index -> slot mapping of Window not identified (candidates: %s)' % cands)
-        self.slot_fn = cands[0]
-        self.slot_fn_path = W + '::<T>::' + self.slot_fn
+        self.slot_fn_path = cands[0]
+        self.slot_fn = cands[0].rsplit('::', 1)[-1]
+        self.slot_fn_is_method = cands[0].startswith(W + '::<T>::')
         # iterators
         self.iters = {}
         for p, a in f.adts.items():
